@@ -314,7 +314,7 @@ pub fn run(a: &Args) -> Report {
     }
     // the full (phase x relation) table, on several seeds
     let mut cases: Vec<Case> = vec![];
-    let seeds = if a.quick() { 3 } else { 60 };
+    let seeds = if a.quick() { 20 } else { 200 };
     for s in 0..seeds {
         for phase in PHASES {
             let mut rels = vec![Rel { same_item: true, seq: 0, cas: 0, target: 0 }, Rel { same_item: true, seq: 0, cas: 1, target: 0 }];
